@@ -24,6 +24,8 @@ RULE = (
     "exception. Non-trivial = the mutated document differs from a valid one (every mutated case); "
     "distinct by SHA-1."
 )
+RULE += (" Replacement values include integers beyond float range, infinities, NaN, and condition strings nested 120 deep / 200-300 operators long.")
+RULE += (" Maps with non-string keys (numbers, booleans, null, as YAML allows) are among the replacement values; collections are also loaded through load_ruleset from one file per document.")
 ASSUMPTIONS = [
     "domain = parsed YAML data with string mapping keys (duplicate keys exist only at text level and "
     "are rejected by the YAML layer itself, pinned by tests/test_rule.py)",
@@ -83,7 +85,11 @@ REPL = [None, 0, 7, -1, 1.5, True, False, "", "x", [], [1], ["x"], {}, {"a": 1},
         {"a": {"b": [1, {"c": None}]}}, "not a uuid", "2024-13-45", "1x", "5", "m", "-5m", "garbage_type",
         "1 of", "a and", "(", "critical", "unknown", {"gte": "x"}, {"gte": 1, "lte": 2}, {"foo": 1},
         {"gte": None}, {"gte": [1]}, {"gte": 1, "percentile": "p"}, "any", ["rule_one", 5], {"__date__": "2024-01-02"},
-        "x" * 300, {"condition": "s", "s": {"|": 1}}, {"f|unknownmod": 1}, {"f|re": "("}, {"f|cidr": "x"}]
+        "x" * 300, {"condition": "s", "s": {"|": 1}}, {"f|unknownmod": 1}, {"f|re": "("}, {"f|cidr": "x"},
+        # boundary numbers and sizes
+        {"__k__:1": "x"}, {"__k__:true": 1, "a": 2}, {"__k__:null": "x"}, [{"__k__:1.5": "x"}], {"__k__:4688": {"__k__:1": 1}},
+        2 ** 1024, -(10 ** 400), float("inf"), float("nan"), {"gte": float("inf")}, {"gte": 2 ** 1024}, [2 ** 1024, "x"],
+        "(" * 120 + "a" + ")" * 120, "not " * 200 + "a", " and ".join(["a"] * 300)]
 
 
 def decode(x):
@@ -94,10 +100,18 @@ def decode(x):
                 return datetime.date.fromisoformat(x["__date__"])
             except ValueError:
                 pass
-        return {k: decode(v) for k, v in x.items()}
+        return {_key(k): decode(v) for k, v in x.items()}
     if isinstance(x, list):
         return [decode(v) for v in x]
     return x
+
+
+_KEYS = {"__k__:1": 1, "__k__:true": True, "__k__:1.5": 1.5, "__k__:null": None, "__k__:4688": 4688}
+
+
+def _key(k):
+    """Case JSON key -> YAML-level key (YAML maps may have numbers, booleans and null as keys)."""
+    return _KEYS.get(k, k)
 
 
 def paths(doc, prefix=()):
@@ -150,6 +164,19 @@ def _load(entry: str, data, collect: bool, via_yaml: bool):
     cls = _classes()[entry]
     data = copy.deepcopy(data)
     if entry == "coll":
+        if via_yaml == "ruleset":  # one file per document, loaded through load_ruleset
+            import os, pathlib, shutil, tempfile
+            # the same directory for the strict and the collecting load: errors carry their source path
+            d = os.path.join(tempfile.gettempdir(), f"vfc07.{os.getpid()}")
+            shutil.rmtree(d, ignore_errors=True)
+            os.makedirs(d)
+            try:
+                for i, doc in enumerate(data):
+                    with open(f"{d}/r{i:02d}.yml", "w") as f:
+                        yaml.safe_dump(doc, f)
+                return cls.load_ruleset([pathlib.Path(d)], collect_errors=collect)
+            finally:
+                shutil.rmtree(d, ignore_errors=True)
         if via_yaml:
             return cls.from_yaml(yaml.safe_dump_all(data), collect_errors=collect)
         return cls.from_dicts(data, collect_errors=collect)
@@ -164,13 +191,14 @@ def check_case(case: dict) -> Outcome:
     out = Outcome()
     entry = case["entry"]
     data = decode(case["data"])
-    via_yaml = bool(case.get("yaml"))
+    via_yaml = case.get("yaml") if case.get("yaml") == "ruleset" and case["entry"] == "coll" else bool(case.get("yaml"))
     if entry == "coll" and not isinstance(data, list):
         out.skipped = "collection input must be a list of documents"
         return out
     out.nontrivial = True
-    out.label(entry, "yaml" if via_yaml else "dict")
-    tag = f"{entry}:{'yaml' if via_yaml else 'dict'}"
+    how = "ruleset" if via_yaml == "ruleset" else ("yaml" if via_yaml else "dict")
+    out.label(entry, how)
+    tag = f"{entry}:{how}"
     strict_exc = None
     try:
         _load(entry, data, False, via_yaml)
@@ -186,6 +214,9 @@ def check_case(case: dict) -> Outcome:
         strict_exc = "other"
     try:
         obj = _load(entry, data, True, via_yaml)
+    except RecursionError:  # interpreter limit (same rule as for strict loading above)
+        out.skipped = "recursion limit"
+        return out
     except Exception as e:  # noqa
         out.fail(f"C07:{entry}:collect-raised:{type(e).__name__}:{_frame(e)}", f"{tag} collecting mode raised {type(e).__name__}: {e} for {case['data']!r}"[:600])
         return out
@@ -237,7 +268,7 @@ def run(ctx) -> None:
                 if i % ctx.nshards != ctx.shard:
                     continue
                 m = mutate(coll, path, value, delete)
-                ctx.do({"entry": "coll", "data": m, "yaml": i % 4 == 0})
+                ctx.do({"entry": "coll", "data": m, "yaml": "ruleset" if i % 5 == 0 else i % 4 == 0})
     ctx.extra["exhaustive_part"] = "every path x every replacement/deletion over the seed documents (single mutations)"
     n = 1500 if ctx.tier == "quick" else 20000
     ctx.hyp(double_mutations(), n, salt=1)
@@ -273,5 +304,5 @@ def arbitrary_docs(draw):
     entry = draw(st.sampled_from(["rule", "corr", "filter", "coll", "coll"]))
     if entry == "coll":
         docs = draw(st.lists(st.one_of(yaml_data, st.sampled_from([RULE_DOC, RULE2, FILTER_DOC] + CORR_DOCS)), min_size=1, max_size=3))
-        return {"entry": "coll", "data": docs, "yaml": draw(st.booleans())}
+        return {"entry": "coll", "data": docs, "yaml": draw(st.sampled_from([False, True, "ruleset"]))}
     return {"entry": entry, "data": draw(yaml_data), "yaml": draw(st.booleans())}
